@@ -286,6 +286,19 @@ for fn, nm in (("_skinny64_parallel_encrypt_vec128", "v64p_enc"), ("_skinny64_pa
     d = pe(V64, fn, f"{nm}_store", "seg", 1, [], P, ["output"], rows); d["veclanes"] = "explicit"; vp.append(d)
 mods.append({"name": "Vec64Pieces", "imports": ["Vec64Leaf"], "entries": vp})
 
+# ---------------------------------------------------------------- vector parallel files, byte-wise store path (SKINNY_UNALIGNED = 0)
+U0 = ["-DSKINNY_VERIF_UNALIGNED=0"]
+vu = []
+for file, fl, fns, nbytes in ((V128, U0, (("_skinny128_parallel_encrypt_vec128", "v128p_enc"), ("_skinny128_parallel_decrypt_vec128", "v128p_dec")), 64),
+                              (V256, U0 + AVX, (("_skinny128_parallel_encrypt_vec256", "v256p_enc"), ("_skinny128_parallel_decrypt_vec256", "v256p_dec")), 128),
+                              (V64, U0, (("_skinny64_parallel_encrypt_vec128", "v64p_enc"), ("_skinny64_parallel_decrypt_vec128", "v64p_dec")), 64)):
+    for fn, nm in fns:
+        P = {"output": {"bytes": nbytes, "out": True}, "input": {"bytes": nbytes}}
+        rows = ["row0", "row1", "row2", "row3"]
+        d = pe(file, fn, f"{nm}_load_u0", "seg", 0, fl, P, rows); d["veclanes"] = "explicit"; vu.append(d)
+        d = pe(file, fn, f"{nm}_store_u0", "seg", 1, fl, P, ["output"], rows); d["veclanes"] = "explicit"; vu.append(d)
+mods.append({"name": "VecU0Pieces", "entries": vu})
+
 # ---------------------------------------------------------------- counters
 mods.append({"name": "CounterLeaf", "entries": [
     e(S128, "skinny128_inc_counter", "skinny128_inc_counter", [], None, {"counter": {"bytes": 16}}),
